@@ -7,6 +7,7 @@ import (
 	"io"
 	"math"
 	"os"
+	"reflect"
 	"slices"
 	"strings"
 	"unsafe"
@@ -296,13 +297,16 @@ func (f *BytecodeFunction) AddValue(obj value.Value) (int, IntSize) {
 	var id int
 	if obj.IsReference() {
 		objRef := obj.AsReference()
+		// struct values that contain maps or slices (eg. native hash records)
+		// cannot be compared with ==, never deduplicate them
+		comparable := reflect.TypeOf(objRef).Comparable()
 		i := -1
 		for j, value := range f.Values {
-			if !value.IsReference() {
+			if !comparable || !value.IsReference() {
 				continue
 			}
 
-			if value.AsReference() == objRef {
+			if ref := value.AsReference(); reflect.TypeOf(ref).Comparable() && ref == objRef {
 				i = j
 				id = j
 				break
